@@ -18,7 +18,7 @@ def T(quick, thorough, floor=200, **kw):
 
 
 PROPS = {
-    "C18": T(6000, 200000,
+    "C18": T(6000, 60000,
              rule="graph6 (40% of the cases): simple undirected graph on n nodes, n in 0..=70 with 61..64 and 0..3 over-sampled (thorough: "
                   "also 100..320), 10 families; graph6_string() on Graph (shuffled history), StableGraph with vacancies, GraphMap, "
                   "MatrixGraph with removed ids and Csr must equal the harness' own byte-level encoder applied to the adjacency in "
@@ -29,7 +29,7 @@ PROPS = {
                   "(one enumerated by case index, so all 160 are covered) x Display/Debug/{:#}/{:#?}; output tokenized and parsed by "
                   "the harness' DOT parser and compared statement by statement; non-trivial = >=3 nodes and >=2 edges (graph6) / >=2 "
                   "nodes and >=1 edge (Dot); distinct = hash of the input"),
-    "C17": T(10000, 300000, sites=["serde_link_edges_graph", "serde_link_edges_stable"],
+    "C17": T(10000, 150000, sites=["serde_link_edges_graph", "serde_link_edges_stable"],
              t={"legs": ["debug", "release", "asan"], "asan_cases_per_shard": 8000},
              rule="six workload kinds: (1) round trips of StableGraphs reached by mutation histories (vacancies frequent) through JSON "
                   "and bincode, 2 edge types x 4 index widths, loaded back as StableGraph and as Graph, plus the compact Graph copy "
@@ -135,33 +135,33 @@ PROPS = {
                   "(0/1-node) patterns, independent pairs; all five functions on Graph, the two unlabelled ones also on GraphMap; "
                   "predicates none / == / <= (non-symmetric); full mapping set compared with exhaustive search; "
                   "non-trivial = pattern >=2 nodes, target >=3 nodes and >=2 edges; distinct = hash of both graphs"),
-    "C15": T(80000, 600000,
+    "C15": T(80000, 1500000,
              rule="matching: graph from blossom-prone families (odd cycles with tails, Petersen, blocks, sparse gnp, multigraphs; "
                   "75% undirected, n<=9, 12%: n<=14) on one random encoding of 9, both algorithms, all accessors, optimum by bitmask DP; "
                   "flow: directed capacitated multigraph (antiparallel/parallel edges, loops, zero capacities) or the flow_cancel family "
                   "(shortest augmenting path must later be cancelled), random s!=t, Graph/StableGraph-with-holes, u32/u64/f64; "
                   "non-trivial = both inputs have >=3 nodes and >=2 edges; distinct = hash of both inputs"),
-    "C16": T(80000, 600000,
+    "C16": T(80000, 1800000,
              rule="dominators: random (mostly directed) multigraph from 21 families (reducible and irreducible flow graphs, "
                   "unreachable parts), random root, n<=8 (10%: n<=13), one random encoding of 9; articulation points: random "
                   "undirected multigraph with loops on one encoding of 8; non-trivial = both inputs have >=3 nodes and >=2 edges; distinct = hash of both edge lists"),
-    "C12": T(80000, 600000,
+    "C12": T(80000, 1800000,
              rule="random weighted multigraph (21 families incl. disconnected unions, parallel edges of different weight, loops; "
                   "n<=9, 10%: n<=14; weights 1..2 ties / 0..9 / -5..20; i64 or f64) on one random encoding of 9 for Kruskal and "
                   "(undirected inputs) one of 8 for Prim, plus from_elements on a StableGraph with a hole; "
                   "non-trivial = >=3 nodes and >=2 edges; distinct = distinct weighted edge-list hash"),
-    "C11": T(60000, 600000,
+    "C11": T(60000, 1500000,
              rule="signed-weight workloads: potential-reweighted digraphs (negative edges, no negative cycle), random signed, one lowered "
                   "edge, negative self-loop only, convex complete DAG w(i,j)=(j-i)^2 in both insertion orders (also on an "
                   "order-preserving Graph), undirected with/without a negative edge; n<=7 (10%: n<=11); bellman_ford+find_negative_cycle "
                   "(f32/f64), spfa (i32/i64/f64), floyd_warshall(_path) (i32/i64/f64) each on one random encoding; "
                   "non-trivial = >=3 nodes, >=2 edges and at least one negative edge; distinct = distinct weighted edge-list hash"),
-    "C10": T(80000, 600000,
+    "C10": T(80000, 1800000,
              rule="random non-negatively weighted multigraph (21 families, n<=7, 10%: n<=12; weight ranges 0..9, 1..2 ties, "
                   "0..1 zero-cost cycles, 0..30) on one random encoding of 9, cost type u32/i64/f32/f64; dijkstra with and "
                   "without goal, astar with zero/exact/random-admissible heuristics and 1-3 goals, k_shortest_path k in 1..5; "
                   "non-trivial = >=3 nodes and >=2 edges; distinct = distinct (n, directedness, weighted edge list) hash"),
-    "C08": T(50000, 600000,
+    "C08": T(50000, 1200000,
              rule="random multigraph (21 families, n<=8, 10%: n<=13) on one random encoding of 9 (all graph types; "
                   "Reversed/NodeFiltered/EdgeFiltered/UndirectedAdaptor views in 1/3 of the cases); walkers from a random "
                   "start incl. move_to/reset; depth_first_search under random Continue/Prune/Break/Err scripts in the "
